@@ -17,19 +17,17 @@ class UnitType:
     def convert(self, magnitude1):
         if not hasattr(self, self.conversion[0]):
                 raise Exception('Conversion method is not implemented:', self.conversion[0])
-        if isinstance(magnitude1.value, Decimal) or \
-           isinstance(self.baseunits1.magnitude, Decimal) or \
-           isinstance(self.baseunits2.magnitude, Decimal):
-            magnitude1.value = Decimal(magnitude1.value)
-            self.baseunits1.magnitude = Decimal(self.baseunits1.magnitude)
-            self.baseunits2.magnitude = Decimal(self.baseunits2.magnitude)
+        value, mag1, mag2 = magnitude1.value, self.baseunits1.magnitude, self.baseunits2.magnitude
+        if isinstance(value, Decimal) or isinstance(mag1, Decimal) or isinstance(mag2, Decimal):
+            # promote copies: the operand and the unit objects keep their own numbers
+            value, mag1, mag2 = Decimal(value), Decimal(mag1), Decimal(mag2)
         error = magnitude1.error
         if error is not None and self.conversion[0]=="_convert_linear":
             # a linear conversion scales the absolute error like the value
-            ratio = self.baseunits1.magnitude / self.baseunits2.magnitude
+            ratio = mag1 / mag2
             error = error * (ratio if isinstance(error, Decimal) else float(ratio))
         return Magnitude(
-            getattr(self, self.conversion[0])(magnitude1.value * self.baseunits1.magnitude, *self.conversion[1:]) / self.baseunits2.magnitude,
+            getattr(self, self.conversion[0])(value * mag1, *self.conversion[1:]) / mag2,
             error
         )
         
